@@ -71,6 +71,10 @@ pub enum Op {
         mid: Option<(u8, Vec<Delta>)>,
         #[serde(default)]
         notify_after: Option<u32>,
+        /// 0: `step()`; 1: `update()` then `apply()`; 2: `reset()` then
+        /// `apply()` - a full resynchronisation forced by the caller.
+        #[serde(default)]
+        how: u8,
     },
     NewConnection(Conn),
     SetReady(bool),
@@ -104,6 +108,8 @@ struct Live {
     ok_steps: u32,
     dead: bool,
     update_since_ok: bool,
+    /// the client's refresh timer is armed (an `update()` has completed on this client)
+    timer_armed: bool,
 }
 
 #[derive(Default)]
@@ -119,6 +125,8 @@ struct Summary {
     timer_woken: bool,
     err_step: bool,
     mid_fired: bool,
+    forced_reset: bool,
+    update_apply: bool,
     nontrivial: bool,
     ok_steps: u32,
     steps: u32,
@@ -141,6 +149,7 @@ async fn connect(tx: &UnboundedSender<Result<MemEnd, io::Error>>, conn: &Conn) -
         ok_steps: 0,
         dead: false,
         update_since_ok: false,
+        timer_armed: false,
     })
 }
 
@@ -225,7 +234,8 @@ fn run_history(c: &Case, obs: &mut Obs) -> CheckResult {
                     drop(live);
                     live = connect(&tx, conn).await?;
                 }
-                Op::ClientStep { mid, notify_after } => {
+                Op::ClientStep { mid, notify_after, how } => {
+                    let how = *how % 3;
                     if live.dead {
                         // what Client::run's caller does after an error: reconnect with the last good state
                         let conn = Conn { state: InitState::Last, ..live.conn.clone() };
@@ -243,7 +253,9 @@ fn run_history(c: &Case, obs: &mut Obs) -> CheckResult {
                     };
                     let timers_idle = timers_started.load(Ordering::SeqCst) == timers_fired.load(Ordering::SeqCst)
                         && notify_after.is_none();
-                    let plain = ready && timers_idle && if first_step { pending == 0 } else { pending <= 1 };
+                    // A Serial Notify waiting in the socket is taken in by update() only while it waits for
+                    // the refresh timer, which is armed by a completed update() - not by a bare reset().
+                    let plain = ready && timers_idle && if !live.timer_armed || how == 2 { pending == 0 } else { pending <= 1 };
                     let notify_pending = pending > 0;
                     if let Some(secs) = notify_after {
                         let mut n = notify.clone();
@@ -264,7 +276,20 @@ fn run_history(c: &Case, obs: &mut Obs) -> CheckResult {
                     live.ctl.set_budget(STEP_BUDGET);
                     let client = live.client.as_mut().unwrap();
                     let log_before = client.target().log.len();
-                    let res = tokio::time::timeout(Duration::from_secs(STEP_VIRTUAL_SECS), client.step()).await;
+                    let res = tokio::time::timeout(Duration::from_secs(STEP_VIRTUAL_SECS), async {
+                        match how {
+                            0 => client.step().await,
+                            1 => {
+                                let u = client.update().await?;
+                                client.apply(u).await
+                            }
+                            _ => {
+                                let u = client.reset().await?;
+                                client.apply(u).await
+                            }
+                        }
+                    })
+                    .await;
                     sum.steps += 1;
                     let timer_notified = timers_fired.load(Ordering::SeqCst) > fired_timers_before;
                     // a mid-response update that found no response to ride on happens now
@@ -295,6 +320,10 @@ fn run_history(c: &Case, obs: &mut Obs) -> CheckResult {
                         Ok(()) => {
                             ensure!(log.len() == log_before + 1, "op #{}: successful step applied {} updates", opi, log.len() - log_before);
                             let rec = log.last().unwrap().clone();
+                            ensure_sig!(rec.problems.is_empty(), "c06:item-not-interchangeable", "op #{}: {}", opi, rec.problems.join("; "));
+                            ensure!(how != 2 || rec.reset, "op #{}: Client::reset() produced an update that is not a reset", opi);
+                            sum.forced_reset |= how == 2;
+                            sum.update_apply |= how == 1;
                             rtrsim::apply_rec(&mut live.model, &rec);
                             let info = live.info.lock().unwrap().clone();
                             let v = info.last_forwarded_version
@@ -331,13 +360,14 @@ only client: {:?}; only source: {:?}", opi, v, describe(&rec), serial, have.diff
                             sum.fallback |= fallback;
                             sum.initial_reset |= rec.reset && !fallback;
                             sum.wrap |= serial < c.start_serial;
-                            if !first_step {
+                            if !first_step && how != 2 {
                                 if notify_pending { sum.notify_woken = true } else if timer_notified { sum.notify_during_step = true } else { sum.timer_woken = true }
                             }
                             if live.ok_steps > 0 && live.update_since_ok && (!rec.reset || fallback) {
                                 sum.nontrivial = true;
                             }
                             live.ok_steps += 1;
+                            live.timer_armed |= how != 2;
                             live.update_since_ok = false;
                             last_ok = Some((sess, serial));
                         }
@@ -364,6 +394,8 @@ only client: {:?}; only source: {:?}", opi, v, describe(&rec), serial, have.diff
     obs.label_if(sum.timer_woken, "timer-woken");
     obs.label_if(sum.err_step, "err-step");
     obs.label_if(sum.mid_fired, "mid-response-update");
+    obs.label_if(sum.forced_reset, "forced-reset");
+    obs.label_if(sum.update_apply, "update-then-apply");
     obs.label_if(sum.ok_steps >= 2, "two-ok-steps");
     obs.evals(sum.steps.saturating_sub(1) as u64);
     obs.nontrivial_if(sum.nontrivial);
@@ -400,7 +432,8 @@ fn op_strategy() -> BoxedStrategy<Op> {
                 3 => prop::sample::select(vec![0u32, 1, 2, 3, 600, 3599, 3600, 3601, 86399, 86400, 86401]),
                 1 => 0u32..100_000,
             ]),
-        ).prop_map(|(mid, notify_after)| Op::ClientStep { mid, notify_after }),
+            prop_oneof![6 => Just(0u8), 2 => Just(1u8), 2 => Just(2u8)],
+        ).prop_map(|(mid, notify_after, how)| Op::ClientStep { mid, notify_after, how }),
         10 => conn_strategy().prop_map(Op::NewConnection),
         2 => prop::bool::weighted(0.6).prop_map(Op::SetReady),
     ]
@@ -443,7 +476,7 @@ pub fn property() -> Property {
             strategy: case_strategy,
             cases: |t| t.pick(750_000, 5_000_000),
             run: run_history,
-            floors: &[("v0", 0.15), ("v1", 0.15), ("v2", 0.15), ("downgrade", 0.10), ("fallback", 0.10), ("wrap", 0.05), ("diff", 0.2)],
+            floors: &[("v0", 0.15), ("v1", 0.15), ("v2", 0.15), ("downgrade", 0.10), ("fallback", 0.10), ("wrap", 0.05), ("diff", 0.2), ("forced-reset", 0.15), ("update-then-apply", 0.15)],
         }
         .boxed()],
     }
